@@ -44,6 +44,7 @@ type verifC10Env struct {
 	store     *verifRecStore
 	callbacks int
 	clock     *verifClock
+	bare      bool // writes carry nothing but the token
 }
 
 func verifC10Server() *verifC10Env { return verifC10ServerOpt(verifSrvOpt{noSecurity: true}) }
@@ -62,10 +63,14 @@ func verifC10ServerOpt(o verifSrvOpt) *verifC10Env {
 func (env *verifC10Env) write(method string, token string, src *net.UDPAddr) {
 	a := &krpc.MsgArgs{ID: verifPeerID(env.v.id, []int{0}, false), Token: token}
 	verifFill(a.InfoHash[:])
-	if method == "announce_peer" {
+	switch {
+	case env.bare:
+		// nothing but the token: no port / no seq and value (a write that is malformed in other
+		// respects is still unauthenticated first)
+	case method == "announce_peer":
 		p := 6881
 		a.Port = &p
-	} else {
+	default:
 		sq := int64(1)
 		a.Seq = &sq
 		a.V = "vv"
@@ -128,6 +133,7 @@ func VerifC10_HandlerForged() {
 	}
 	env.clock.t = now
 	method := verifWriteMethod()
+	env.bare = verifNondetBool()
 	env.write(method, tok, src)
 	env.noEffect("a token this node did not issue")
 	verifReach("end")
